@@ -58,6 +58,8 @@ TABLE_DIMS = {
     "text_font": [None, 4, "col"],
     "text_convert": [None, False],
     "heights": [None, "wrap"],
+    "cell_vjust": [None, "center", "merge"],   # "merge": first column merge_first on row 0, merge_rest below (vertically merged cells)
+    "colnames": [None, "index", "row_nr", "literal"],  # a data column carrying a name that polars / pandas helpers use by default
     "text_color": [None, "red", "col"],
     "title_color": [None, "blue"],
 }
@@ -185,6 +187,12 @@ def table_spec(c):
         body["text_color"] = shape_value("col", ["red", "gold", "navy"], n, ncol_all) if c["text_color"] == "col" else c["text_color"]
     if c.get("title_color") and c["title"]:
         spec["title_attrs"] = {"text_color": c["title_color"]}
+    if c.get("cell_vjust") == "center":
+        body["cell_vertical_justification"] = "center"
+    elif c.get("cell_vjust") == "merge" and n and ncol_all:
+        body["cell_vertical_justification"] = [["merge_first" if r == 0 else "merge_rest"] + ["top"] * (ncol_all - 1) for r in range(n)]
+    if c.get("colnames") and cols:
+        spec["rename"] = {"c0": {"index": "index", "row_nr": "row_nr", "literal": "literal"}[c["colnames"]]}
     if body:
         spec["body"] = body
     if c["heights"] == "wrap" and n:
